@@ -1,4 +1,4 @@
-(* Model/BootCI.v — hand model of score_analysis/utils.py: bootstrap_ci (lines 36-140) and of the
+(* Model/BootCI.v — hand model of score_analysis/utils.py: bootstrap_ci (lines 36-146, with the fixes 4a7af20 and fa251ac) and of the
    NumPy routine it calls, np.nanquantile (default "linear" method).  Follows the Python statement by
    statement, as the code is.  No proofs here (Proofs/QuantileFacts.v, Proofs/BootCIFacts.v).
 
@@ -144,13 +144,14 @@ Section Boot.
   Definition levels (m : method) (col : list rate) (th : rate) (alpha : Q) : rate * rate :=
     let '(zl, zu) := level_args m col th alpha in (cdf_x zl, cdf_x zu).
 
-  (* ci[j] = np.nanquantile(theta[:, j], q=[alpha_hat_lower[j], alpha_hat_upper[j]]) ; a NaN or
+  (* if isnan(alpha_hat_lower[j]) or isnan(alpha_hat_upper[j]): ci[j] = nan   (no finite replicate)
+     else: ci[j] = np.nanquantile(theta[:, j], q=[alpha_hat_lower[j], alpha_hat_upper[j]]) ; an
      out-of-range level makes np.nanquantile raise ValueError *)
   Definition ci_at_levels (col : list rate) (lv : rate * rate) : res (rate * rate) :=
     match lv with
     | (Some ql, Some qu) =>
         if q_valid ql && q_valid qu then Ok (nanquantile col ql, nanquantile col qu) else Err
-    | _ => Err
+    | _ => Ok (None, None)
     end.
 
   (* one component, one alpha, any method (for the quantile method theta_hat is ignored) *)
@@ -188,7 +189,8 @@ Section Boot.
       Ok (yshape ++ ashape ++ [2%nat], flatten3 ci)                               (* (Y, Z, 2)  *)
     else Err.
 
-  (* method in {"bc", "bca"}: lines 86-136; the loop over j raises at the first bad column *)
+  (* method in {"bc", "bca"}: lines 86-141; a component without finite replicates gets (NaN, NaN); the loop
+     would raise at a column whose level is outside [0,1] (impossible for a cdf value) *)
   Definition bootstrap_ci_bcx (m : method) (yshape : list nat) (rows : list (list rate))
              (hats : option (list rate)) (alpha : Q) : res (list nat * list rate) :=
     match hats with
@@ -218,15 +220,11 @@ Section Boot.
         end
     end.
 
-  (* dtype of theta and theta_hat.  With integer replicates AND an integer estimate, a_num = nansum((theta -
-     theta_hat) ** 3) is an integer array, so out=np.zeros_like(a_num) is an integer buffer and
-     np.divide(a_num, a_den, out=...) raises UFuncTypeError (cannot cast float64 to int64): the bca branch
-     fails before any limit is computed.  quantile and bc are unaffected (they only compare and count). *)
+  (* dtype of theta and theta_hat.  The acceleration is computed into a float buffer
+     (out=np.zeros_like(a_num, dtype=float)), so integer-typed replicates and estimates are treated like the
+     same values as floats; comparing, counting and the quantiles never depended on the dtype. *)
   Inductive dtype := DFloat | DInt.
   Definition bootstrap_ci_dt (dt : dtype) (yshape : list nat) (rows : list (list rate)) (hats : option (list rate))
              (al : alpha_arg) (m : method) : res (list nat * list rate) :=
-    match dt, m, hats, al with
-    | DInt, MBca, Some _, AScalar _ => Err
-    | _, _, _, _ => bootstrap_ci yshape rows hats al m
-    end.
+    bootstrap_ci yshape rows hats al m.
 End Boot.
